@@ -132,7 +132,7 @@ func cmdCheck(args []string) int {
 			}
 		}
 		var err error
-		corpus, err = r.BuildCorpus(only)
+		corpus, err = r.BuildCorpus(only, cfg.ID)
 		defer corpus.Remove()
 		if err == nil {
 			err = r.LoadCorpus(corpus)
@@ -178,6 +178,9 @@ func cmdCheck(args []string) int {
 	e.SweepConcurrency(cfg.ID)
 	if cfg.ID == "C18" {
 		e.SweepCallSites(cfg.ID)
+	}
+	if cfg.ID == "C05" {
+		e.SweepStyleWriters(cfg.ID)
 	}
 	if cfg.ID == "C14" {
 		e.SweepGlobals("C14", []string{modulePath + "/runtime", modulePath})
